@@ -2,6 +2,7 @@ package ramfs
 
 import (
 	"context"
+	"sync/atomic"
 	"time"
 
 	"github.com/frobnitzem/go-p9p"
@@ -13,8 +14,7 @@ type fServer struct {
 	root *FileEnt
 }
 func (fs *fServer) next() uint64 {
-	fs.lastpath++
-	return fs.lastpath
+	return atomic.AddUint64(&fs.lastpath, 1)
 }
 // global to all clients
 var fserver fServer = fServer{
